@@ -4,9 +4,8 @@ import z3
 from .core import (V, VDate, is_date, is_none, Int, Str, Real, Bool, Val, C, S, B, I, R, T, Obj, is_t)
 from .interp import OutOfReach
 from .models_ops import norm, numkind, real_term, int_term, raise_, kind_of
-from .models_calls import ufun, used, DATE_FIELD, DATE_RANGE
+from .models_calls import ufun, used, DATE_FIELD, DATE_RANGE, DIM
 
-DIM = ufun('DIM', Int, Int, Int)                       # days in month
 MKUS = ufun('MKUS', Int, Int, Int, Int, Int, Int, Int, Int)   # civil fields -> microseconds
 L2U = ufun('L2U', Int, Int)                            # local naive reading -> UTC instant
 U2L = ufun('U2L', Int, Int)
@@ -15,6 +14,12 @@ FROMISO_OK = ufun('FROMISO_OK', Str, Bool)
 FROMISO = ufun('FROMISO', Str, Int)
 ROUND_HALF_EVEN = ufun('ROUND_HALF_EVEN', Real, Int)
 REPLACE_MICRO = ufun('REPLACE_MICRO', Int, Int, Int)
+
+
+def in_date_range(t):
+    """every datetime value denotes an instant in years 1..9999 (assumed total: conversions near the ends of the
+    range that would raise OverflowError are outside the model)"""
+    return z3.And(t >= -62135596800 * 10 ** 6, t < 253402300800 * 10 ** 6)
 
 
 def dim_facts(ip, y, m):
@@ -43,6 +48,7 @@ def make_datetime(ip, kind, parts):
     if not ctx.branch(ok):
         raise_('ValueError', 'day/time component out of range')
     t = MKUS(y, m, d, h, mi, s, us)
+    ctx.assume(in_date_range(t))
     for name, val in zip(('year', 'month', 'day', 'hour', 'minute', 'second', 'microsecond'), parts):
         ctx.assume(DATE_FIELD[name](t) == val)
     return S(VDate(z3.IntVal(kind), t))
@@ -75,9 +81,9 @@ def date_call(ip, name, args, kwargs):
              'OverflowError iff |days| > 999999999')
         x = real_term(ip, ms) * 1000
         us = z3.If(z3.IsInt(x), z3.ToInt(x), ROUND_HALF_EVEN(x))
-        hook = ctx.cfg.hooks.get('timedelta_overflow')
-        if hook is not None:
-            hook(ip, us)
+        lim = z3.IntVal(1000000000 * 86400 * 10 ** 6)
+        if ctx.branch(z3.Or(us >= lim, us <= -lim)):
+            raise_('OverflowError', 'days=...; must have magnitude <= 999999999')
         return Obj('timedelta', us=z3.simplify(us))
     if name == 'calendar.monthrange':
         y = _int_arg(ip, args[0], 'year')
@@ -113,6 +119,7 @@ def date_method(ip, d, name, args, kwargs):
         if ctx.branch(kind == 0):
             raise_('AttributeError', "'datetime.date' object has no attribute 'astimezone'")
         if ctx.branch(kind == 1):
+            ctx.assume(in_date_range(L2U(us)))
             return S(VDate(z3.IntVal(2), L2U(us)))
         return S(VDate(z3.IntVal(2), us))
     if name == 'replace':
@@ -123,6 +130,7 @@ def date_method(ip, d, name, args, kwargs):
             used('aware.replace(tzinfo=None): the local naive reading U2L(instant); U2L(L2U(x)) = x for local times that exist')
             if ctx.branch(kind == 2):
                 ctx.assume(U2L(L2U(U2L(us))) == U2L(us))
+                ctx.assume(in_date_range(U2L(us)))
                 return S(VDate(z3.IntVal(1), U2L(us)))
             return S(VDate(kind, us))
         if 'microsecond' in kwargs:
